@@ -369,7 +369,7 @@ namespace xtl
 
         inline pointer operator->() const
         {
-            return m_it;
+            return &(*m_it);
         }
 
         inline bool equal(const self_type& rhs) const
